@@ -435,6 +435,10 @@ func init() {
 			return &Agg{Elems: []Value{in.ts.Const(64, 0), &Iface{}}}, nil, true
 		})
 	}
+	four := func(in *Interp, s *State, c *callCtx) (Value, []*State, bool) { return in.ts.Const(64, 4), nil, true }
+	reg("runtime.GOMAXPROCS", four)
+	reg("runtime.NumCPU", four)
+	reg("runtime.NumGoroutine", four)
 	reg("runtime.KeepAlive", nop)
 	reg("runtime.SetFinalizer", nop)
 	reg("time.Sleep", nop)
